@@ -159,6 +159,30 @@ def learned_stream(rs, tier):
                                     conj_len=cfg["conj_len"], arity=cfg["arity"], random_seed=cfg["seed"])
             return root, X.shape[1], None
         out.append(("xpc", cfg, f, cfg["sd"]))
+    # greedy variable ordering on data with EXACT ties in the pairwise scores (a column occurring three or more times, several
+    # constant columns, very few rows), with and without Chow-Liu leaves
+    for i in range(24 if tier == "quick" else 160):
+        cfg = dict(det=bool(i % 4 == 3), sd=True, sd_level=2 if i % 3 == 2 else None, ensemble=bool(i % 3 == 2), conj_len=int(rs.choice([2, 3])),
+                   arity=int(rs.choice([2, 3])), min_part_inst=int(rs.choice([5, 10, 20])), n=int(rs.choice([12, 20, 40, 120])), d=int(rs.randint(5, 9)),
+                   seed=int(rs.randint(1000)), use_clt=bool(i % 2), ties=["copies", "constants", "few-rows"][i % 3], greedy=True)
+        def f(cfg=cfg):
+            z = rs.rand(cfg["n"], 1) < 0.5
+            X = (rs.rand(cfg["n"], cfg["d"]) < np.where(z, 0.25, 0.7)).astype(np.float32)
+            cols = rs.permutation(cfg["d"])
+            if cfg["ties"] == "copies":
+                for c in cols[1:1 + int(rs.choice([2, 3]))]:
+                    X[:, c] = X[:, cols[0]]
+            elif cfg["ties"] == "constants":
+                for c in cols[:3]:
+                    X[:, c] = float(rs.randint(2))
+            if cfg["ensemble"]:
+                root, _ = learn_expc(X, ensemble_dim=3, det=cfg["det"], sd_level=2, min_part_inst=cfg["min_part_inst"], conj_len=cfg["conj_len"],
+                                     arity=cfg["arity"], use_clt=cfg["use_clt"], random_seed=cfg["seed"])
+            else:
+                root, _ = learn_xpc(X, det=cfg["det"], sd=True, min_part_inst=cfg["min_part_inst"], conj_len=cfg["conj_len"], arity=cfg["arity"],
+                                    use_clt=cfg["use_clt"], use_greedy_ordering=True, random_seed=cfg["seed"])
+            return root, X.shape[1], None
+        out.append(("xpc", cfg, f, True))
     # wide data, few rows: the members of a structured-decomposable ensemble stop partitioning at different depths
     for i in range(10 if tier == "quick" else 60):
         cfg = dict(det=bool(i % 2), sd=True, sd_level=2, ensemble=True, conj_len=int(rs.choice([2, 2, 3])), arity=int(rs.choice([2, 3, 4])),
